@@ -127,6 +127,9 @@ def jobs(tier):
             fns = ["foamFrBuffer", "foamNewEmpty", "foamNewAlloc"]
             if "n" in argf:
                 continue        # bintFrPlacevS belongs to bigint.c (C11); the 'n' field is covered for the skipper above
+            if nary and fmt < 2:
+                continue        # count read from the file => node of symbolic size: symex of the union foam stores does not finish
+                                # in 600 s (probed: DFluid, DEnv, Arr); the count itself is covered by ...count_negative below
             if signed_len:
                 J("foam.dec.%s.lengths_nonneg" % label, "foam_dec_h.c", "h_dec_" + ent, fns, DEC_IN, cls="B", bound=DEC_B,
                   defs=["-DV_NO_NEG_LEN"], cbmc=D_UNW, assumed=DEC_ASS, timeout=600)
